@@ -133,7 +133,8 @@ struct MdClass {
             sim::set_poison(true);
             // the copy must be queried through non-const members, hence the lambda takes a mutable reference
             auto ans_const = [&](const Index &ix) { return answers(const_cast<Index &>(ix)); };
-            lifetime_history(idx, p.get("steps"), ans_const, r, pts.size() * sizeof(T) + 4096, out, st, tr);
+            auto make_other = [&]() { return new Index(pts.begin(), pts.end()); };
+            lifetime_history(idx, p.get("steps"), ans_const, make_other, r, pts.size() * sizeof(T) + 4096, out, st, tr);
             sim::set_poison(false);
             st.inc("fault.poison_runs", sim::g_poisoned_blocks); sim::g_poisoned_blocks = 0;
             st.mark("nontrivial", sim::mix(tr.h, sim::hash_str(p.get("steps").c_str())));
